@@ -113,7 +113,10 @@ def universe(thorough):
               T(I(1), A("z")), T(F(1.0), A("a")), T(L([I(1)])), T(L([I(1)], I(2)))]
     maps = [M(), M((I(1), A("a"))), M((F(1.0), A("a"))), M((I(1), A("b"))), M((I(2), A("a"))), M((A("a"), I(1)), (A("b"), I(2))), M((A("a"), I(2)), (A("b"), I(1))),
             M((I(1), A("a")), (I(2), A("b"))), M((I(1), A("b")), (I(2), A("a"))), M((I(1), A("a")), (I(3), A("a"))), M((A("a"), F(1.0))), M((A("a"), I(1))),
-            M((I(1), I(5)), (A("x"), I(1))), M((I(2), I(1)), (A("x"), I(0))), M((T(I(1)), I(1))), M((T(F(1.0)), I(1)))]
+            M((I(1), I(5)), (A("x"), I(1))), M((I(2), I(1)), (A("x"), I(0))), M((T(I(1)), I(1))), M((T(F(1.0)), I(1))),
+            # keys that are the same number as a wide integer and as a float (the integer sorts first), bare and inside a tuple key
+            M((I(2 ** 64), A("a"))), M((F(2.0 ** 64), A("a"))), M((I(-2 ** 64), A("a"))), M((F(-2.0 ** 64), A("a"))), M((I(2 ** 63), A("b"))), M((F(2.0 ** 63), A("a"))),
+            M((T(I(2 ** 64)), I(1))), M((T(F(2.0 ** 64)), I(1)))]
     lists = [NIL, L([I(1)]), L([I(1), I(2)]), L([I(1)], I(2)), L([I(1)], A("a")), L([I(2)]), L([F(1.0)]), L([NIL]), L([I(1), I(2)], I(3)), L([I(1), I(2), I(3)]),
              L([I(1)], B(b"")), L([I(2 ** 64)]), L([I(2 ** 64 + 1)]), L([A("a")]), L([I(1)], T()), L([I(1), I(1)])]
     bins = [B(b""), B(b"\x01"), B(b"\x01\x02"), B(b"\x02"), B(b"\xff"), B(b"\x00"), B(b"a"), B(b"ab"), Bits(b"\x80", 1), Bits(b"\x00", 1), Bits(b"\x01\x80", 1), Bits(b"\x01\x00", 1),
